@@ -1452,7 +1452,7 @@ func c16AfterFromJoin(prev string) bool {
 			}
 		}
 		ls := strings.LastIndexByte(prev, '\n')
-		if k := strings.Index(prev[ls+1:], "--"); k >= 0 {
+		if k := c16LineCommentStart(prev[ls+1:]); k >= 0 {
 			prev = strings.TrimRight(prev[:ls+1+k], " \t\r\n")
 			continue
 		}
@@ -1460,6 +1460,21 @@ func c16AfterFromJoin(prev string) bool {
 	}
 	low := strings.ToLower(prev)
 	return strings.HasSuffix(low, "from") || strings.HasSuffix(low, "join") || strings.HasSuffix(low, "lateral")
+}
+
+// c16LineCommentStart: offset of the first `--` of the line that is outside a
+// string literal (generated literals never span lines), or -1.
+func c16LineCommentStart(line string) int {
+	in := false
+	for i := 0; i+1 < len(line); i++ {
+		if line[i] == '\'' {
+			in = !in
+		}
+		if !in && line[i] == '-' && line[i+1] == '-' {
+			return i
+		}
+	}
+	return -1
 }
 
 // c16RunPairs runs q and each whitespace sibling back to back on the same
